@@ -4,6 +4,7 @@ import Driver.Prog
 import Driver.Cap
 import Driver.Arena
 import Driver.PredD
+import Driver.CapC
 
 open Driver
 
@@ -24,6 +25,7 @@ def main (args : List String) : IO UInt32 := do
   match args with
   | ["values"] => loop stdin stdout ({} : ValState) valuesStep; return 0
   | ["wire"] => loop stdin stdout ({} : ValState) wireStep; return 0
+  | ["capconc"] => loop stdin stdout ({} : CapCState) capcStep; return 0
   | ["pred"] => loop stdin stdout ({} : PredState) predStep; return 0
   | ["arenaconc"] => loop stdin stdout ({} : ArenaState) arenaStep; return 0
   | ["capture"] => loop stdin stdout ({} : CapState) capStep; return 0
